@@ -81,6 +81,9 @@ MODELS = [
         Q(S('red'), B('true'), I(3))]),
     ('top_opt_date', Optional[datetime.date], [], [TS('2001-12-14')]),
     # Any as a member of a Union (D24)
+    ('dashed', Z.Dashed, [Z.Dashed], [
+        M(('max-retries', I(3)), ('log-level', S('a'))),
+    ]),
     ('copying', Z.Copying, [Z.Copying, Z.Sub], [
         M(items=Q(I(1), I(2)), sub=M(x=I(3)), d=M(k=M(x=I(4)))),
     ]),
